@@ -270,8 +270,9 @@ def connDo (o : OpSpec) (v : Nat) (topic : Bytes) (c : Conn) : Outcome × Conn :
   if c.closed then (.fail (.other "use of closed connection"), c)
   else
     match waitResponse c with
-    | .error .eof => (.fail .eof, { c with nextId := c.nextId + 1, closed := true })    -- waitResponse closes on peek errors
-    | .error e => (.fail e, { c with nextId := c.nextId + 1 })                          -- io.ErrNoProgress: kept, nothing consumed
+    | .error e => (.fail e, { c with nextId := c.nextId + 1, closed := true })
+      -- waitResponse closes the Conn on peek errors and — since the fix for C11-D30 — also when a lone waiter finds a
+      -- foreign correlation id (io.ErrNoProgress): the stream is desynchronised for good
     | .ok (sz, rest) =>
       let (out, s') := opRead o v topic ⟨rest, sz⟩
       (out, { stream := s'.inp, nextId := c.nextId + 1, closed := out.isFail && o.closeOnErr })
@@ -287,6 +288,7 @@ structure LockFacts where
   noProgress : Bool
   yield : Bool
   take : Bool          -- the matching-id exit keeps the lock and hands it to the caller
+  desyncCloses : Bool  -- the lone-waiter / foreign-id exit (io.ErrNoProgress) closes the Conn (fix for C11-D30)
   leave : Bool         -- every exit of waitResponse passes through c.leave(): the in-flight count is given back;
                        -- otherwise a later foreign-id response is not recognised as a lone-waiter desync
                        -- (io.ErrNoProgress) and the waiter spins on the yield path forever
@@ -297,7 +299,7 @@ structure LockFacts where
   deriving Repr, DecidableEq
 
 def LockFacts.all (f : LockFacts) : Bool :=
-  f.peekErr && f.noProgress && f.yield && f.take && f.leave && f.doBody && f.apiVersions && f.batchHandover && f.batchClose
+  f.peekErr && f.noProgress && f.desyncCloses && f.yield && f.take && f.leave && f.doBody && f.apiVersions && f.batchHandover && f.batchClose
 
 inductive ExitPath where
   | notSent | peekErr | noProgress | body
@@ -327,6 +329,8 @@ def connDoL (lf : LockFacts) (inflight : Bool) (o : OpSpec) (v : Nat) (topic : B
   if cl.2 && exitPath inflight cl.1 ≠ .notSent then (blocked, cl)
   else
     let r := if inflight && cl.1.closed then (Outcome.fail .eof, { cl.1 with nextId := cl.1.nextId + 1 }) else connDo o v topic cl.1
+    -- code without the C11-D30 fix keeps the Conn open after io.ErrNoProgress
+    let r := if exitPath inflight cl.1 = .noProgress && !lf.desyncCloses then (r.1, { r.2 with closed := false }) else r
     (r.1, (r.2, cl.2 || !released lf o.closeOnErr (exitPath inflight cl.1)))
 
 /-! ### fetch: ReadBatchWith, Batch.readMessage until an error, Batch.Close -/
@@ -376,8 +380,7 @@ def connFetch (fixed : Bool) (v : Nat) (offset : Int) (b : Body) (c : Conn) : Ou
   if c.closed then (.fail (.other "use of closed connection"), c)
   else
     match waitResponse c with
-    | .error .eof => (.fail .eof, { c with nextId := c.nextId + 1, closed := true })
-    | .error e => (.fail e, { c with nextId := c.nextId + 1 })
+    | .error e => (.fail e, { c with nextId := c.nextId + 1, closed := true })
     | .ok (sz, rest) =>
       let (out, s') := fetchRead fixed v offset b ⟨rest, sz⟩
       (out, { stream := s'.inp, nextId := c.nextId + 1, closed := out.isFail })
@@ -386,6 +389,7 @@ def connFetchL (lf : LockFacts) (fixed : Bool) (v : Nat) (offset : Int) (b : Bod
   if cl.2 && exitPath false cl.1 ≠ .notSent then (blocked, cl)
   else
     let r := connFetch fixed v offset b cl.1
+    let r := if exitPath false cl.1 = .noProgress && !lf.desyncCloses then (r.1, { r.2 with closed := false }) else r
     let rel := match exitPath false cl.1 with
       | .body => lf.take && lf.batchHandover && lf.batchClose
       | p => released lf true p
